@@ -389,8 +389,9 @@ func (s *Sess) CreateURR(req *ie.IE) error {
 			MNOP: mInfo.HasMNOP(),
 		},
 	}
-	if _, existed := s.URRIDs[id]; !existed {
+	if old, existed := s.URRIDs[id]; !existed || old.removed {
 		// recorded before the driver call, so that a failed create is cleaned up later
+		// (a record left behind by a Remove URR stands for no URR any more)
 		s.URRIDs[id] = urrInfo
 	}
 
